@@ -86,6 +86,20 @@ structure IsFile {σ : Type} (F : FileOps σ) (inv : σ → Prop) (abs : σ → 
     extends IsReadable F inv abs where
   write : ∀ s w, inv s → ∃ s', F.write s w = .ok (((abs s).write w).1, s') ∧ abs s' = ((abs s).write w).2 ∧ inv s'
 
+/-- a write at this position does not create a zero-filled gap (always true for windows) -/
+def AFile.noGap (f : AFile) : Prop := f.fixed = true ∨ f.pos ≤ f.content.length
+
+/-- like `IsFile`, but writes are only specified when they do not start past the end of a growable file
+    (pyctr's CTR wrappers leave such a gap unencrypted: known finding for C12) -/
+structure IsFileW {σ : Type} (F : FileOps σ) (inv : σ → Prop) (abs : σ → AFile) : Prop
+    extends IsReadable F inv abs where
+  write : ∀ s w, inv s → (abs s).noGap →
+    ∃ s', F.write s w = .ok (((abs s).write w).1, s') ∧ abs s' = ((abs s).write w).2 ∧ inv s'
+
+theorem IsFile.toIsFileW {σ : Type} {F : FileOps σ} {inv : σ → Prop} {abs : σ → AFile}
+    (h : IsFile F inv abs) : IsFileW F inv abs :=
+  { toIsReadable := h.toIsReadable, write := fun s w hi _ => h.write s w hi }
+
 /-- read-only view: a write never changes anything (it raises, or stores nothing). -/
 structure IsReadOnly {σ : Type} (F : FileOps σ) (inv : σ → Prop) (abs : σ → AFile) : Prop
     extends IsReadable F inv abs where
